@@ -459,7 +459,7 @@ func Now() time.Time {
 	if getCur() == nil {
 		return time.Unix(0, procClockTick())
 	}
-	return time.Unix(0, int64(rpc(req{k: kNow}).n))
+	return time.Unix(0, rpc(req{k: kNow}).n64)
 }
 
 func Since(t time.Time) time.Duration { return Now().Sub(t) }
@@ -473,7 +473,7 @@ func Sleep(d time.Duration) {
 		}
 		return
 	}
-	rpc(req{k: kSleep, n: int(d)})
+	rpc(req{k: kSleep, n64: int64(d)})
 }
 
 // Go stands in for a go statement of the library under test (the scratch rewrite turns `go f(x)` into it, with f and x
